@@ -82,10 +82,11 @@ def segmentation(rnd, n, style):
     return out
 
 
-def eff_minmax(cfg):
-    """effective automatic minimum / maximum as the code documents them (avg = 32 KiB)"""
+def eff_minmax(cfg, avg=32768):
+    """effective automatic minimum / maximum as documented: a quarter of and four times the average chunk size the
+    rolling hash aims at (avg, read from the writer itself: 32 KiB by default), clamped by the configured limits"""
     mn = cfg.get("min", 1); mx = cfg.get("max", 10485760)
-    lo = max(32768 // 4, mn); hi = min(32768 * 4, mx)
+    lo = max(avg // 4, mn); hi = min(avg * 4, mx)
     if lo > hi:
         lo = hi
     return lo, hi
